@@ -1152,8 +1152,6 @@ def run(ctx: C.Ctx):
         if replay_witness(f)[2]:
             ctx.known(f"{f['id']}: {f['what']}")
 
-    _debug_dump(ctx)
-
     def nontrivial(c):
         if c[0] == "core":
             seen_w = set()
@@ -1216,10 +1214,3 @@ def replay(data):
         print("STILL FAILS:", f["what"], "expected", f["expected"], "observed", f["observed"])
     return 1 if probe.failures else 0
 
-
-def _debug_dump(ctx):   # pragma: no cover - development aid (VERIF_C20_DEBUG=1)
-    import json
-    import os
-    if os.environ.get("VERIF_C20_DEBUG"):
-        with open("/tmp/wp/c20grow_dis.json", "w") as f:
-            json.dump(ctx.tie_broken, f, default=repr)
